@@ -47,9 +47,22 @@
                                 world built by a history and its permuted copy, and the theorem applies.
    [U] C14_never_fails_core     C14_never_fails with the rank derived from Core: hypotheses Core + SpecKids
    [U] C14_never_fails_histories  in every world reached from the empty world by a history of operations (any tables) that satisfies
-                                SpecKids, sort of any element returns OK and keeps SpecKids.  [P]: SpecKids (every child findable in
-                                its parent's type under u32::MAX, spec lookups of node types do not panic, names in their tables)
-                                is not proved to be kept by the 26 operations; it is decidable: C14_spec_kids_decidable.
+                                SpecKids, sort of any element returns OK and keeps SpecKids; SpecKids is decidable
+                                (C14_spec_kids_decidable) and, under table facts, holds in every reachable world:
+   [U] C14_ready_step           the invariant RE /\ RV (Tree/SortProofsReadyE.v, SortProofsReadyV.v: node types are checked types,
+                                names / enum items / attribute names inside their string tables, every listed sub-element's NAME
+                                is listed by its lister's type for some version) is kept by each of the 26 operations - NO side
+                                condition on move / copy: every attaching path looks the name up at the destination
+                                (calc_element_insert_range) before it inserts; the stored type may differ (C07 / C13 known class),
+                                sort looks up the name.  Table hypotheses: tables_ok, NamesOK, EnumsOK, AttrsOK, valid root_attrs.
+   [U] C14_spec_kids_histories  hence (with MaskOK: masks within u32) Core and SpecKids hold in every world a history reaches
+   [F] C14_table_facts_real     the table hypotheses hold for the regenerated tables RT and the real string tables
+   [F] C14_never_fails_histories_real  on RT: for EVERY history of `op` from the empty world, Element::sort of every allocated
+                                element and AutosarModel::sort of every model return OK (any stable sort) and keep SpecKids -
+                                no world hypothesis; the hypothesis left is on the PARAMETER root_attrs of AutosarModel::new.
+                                C14_never_fails_histories_real_isort: the model's insertion sort, root_attrs = [], no hypothesis.
+                                C14_never_fails_real_nonvacuous: a history on RT (two packages q, p), the theorem applied, and the
+                                sort it promises reorders [q; p] into [p; q].
    [U] C14_findable_mono        a name found by find_sub_element under a 32-bit version mask (what every insertion path checks) is found
                                 under u32::MAX (what sort looks up) unless the wider lookup runs into a table panic
    [F] C14_cmp_cyclic_refuted   the comparison BEFORE fix 4192043 (policy_v0) ordered a2 < a10 < a1b < a2 (tiny tables)
@@ -213,3 +226,67 @@ Theorem C14_findable_mono : forall T ty target v r, v < 2 ^ 32 ->
   find_sub_element T ty target v = Val (Some r) -> (exists r', find_sub_element T ty target MAXV = Val r') ->
   exists et idx, find_sub_element T ty target MAXV = Val (Some (et, idx)).
 Proof. exact findable_mono. Qed.
+
+(* ---- SpecKids in every reachable world ---- *)
+From AV Require Spec.SpecOps Spec.SpecReal Xml.TablesOk Tree.CompatHist1 Tree.SortProofsReadyE Tree.SortProofsReadyV
+  Tree.SortProofsReady Tree.SortProofsReal Hash.HashRealElement Hash.HashRealAttr Hash.HashRealEnum.
+
+Theorem C14_ready_step : forall T tab_el tab_at tab_en check_fn LATEST root_attrs,
+  TablesOk.tables_ok T = true ->
+  (forall i e, i < SpecOps.n_elements T -> SpecOps.T_elements T i = Some e -> to_str tab_el (SpecOps.ed_name e) <> None) ->
+  (forall k items it, SpecOps.T_cdata T k = Some (SpecTypes.CEnum items) -> In it items -> to_str tab_en (fst it) <> None) ->
+  (forall k name cdid req, SpecOps.T_attributes T k = Some (name, cdid, req) -> to_str tab_at name <> None) ->
+  (forall a, In a root_attrs -> to_str tab_at (fst a) <> None /\ cdata_named tab_en (snd a)) ->
+  forall (o : op) w r w', Core w -> SortProofsReadyE.RE T tab_el w -> SortProofsReadyV.RV tab_at tab_en w ->
+  Inv.run T tab_el tab_en check_fn LATEST root_attrs o w = Val (r, w') ->
+  Core w' /\ SortProofsReadyE.RE T tab_el w' /\ SortProofsReadyV.RV tab_at tab_en w'.
+Proof. exact SortProofsReady.ready_step. Qed.
+
+Theorem C14_spec_kids_histories : forall T tab_el tab_at tab_en check_fn LATEST root_attrs,
+  TablesOk.tables_ok T = true -> CompatHist1.MaskOK T ->
+  (forall i e, i < SpecOps.n_elements T -> SpecOps.T_elements T i = Some e -> to_str tab_el (SpecOps.ed_name e) <> None) ->
+  (forall k items it, SpecOps.T_cdata T k = Some (SpecTypes.CEnum items) -> In it items -> to_str tab_en (fst it) <> None) ->
+  (forall k name cdid req, SpecOps.T_attributes T k = Some (name, cdid, req) -> to_str tab_at name <> None) ->
+  (forall a, In a root_attrs -> to_str tab_at (fst a) <> None /\ cdata_named tab_en (snd a)) ->
+  forall (l : list op) w, Inv.run_ops T tab_el tab_en check_fn LATEST root_attrs l empty_world = Val w ->
+  Core w /\ SpecKids T tab_el tab_at tab_en w.
+Proof. exact SortProofsReady.spec_kids_histories. Qed.
+
+Theorem C14_table_facts_real :
+  TablesOk.tables_ok SpecReal.RT = true /\ CompatHist1.MaskOK SpecReal.RT /\
+  (forall i e, i < SpecOps.n_elements SpecReal.RT -> SpecOps.T_elements SpecReal.RT i = Some e ->
+               to_str HashRealElement.tab_element (SpecOps.ed_name e) <> None) /\
+  (forall k items it, SpecOps.T_cdata SpecReal.RT k = Some (SpecTypes.CEnum items) -> In it items ->
+               to_str HashRealEnum.tab_enum (fst it) <> None) /\
+  (forall k name cdid req, SpecOps.T_attributes SpecReal.RT k = Some (name, cdid, req) -> to_str HashRealAttr.tab_attr name <> None).
+Proof. exact SortProofsReal.table_facts_real. Qed.
+
+Theorem C14_never_fails_histories_real : forall check_fn LATEST root_attrs name_index name_definition_ref srt,
+  StableSort srt ->
+  (forall a, In a root_attrs -> to_str HashRealAttr.tab_attr (fst a) <> None /\ cdata_named HashRealEnum.tab_enum (snd a)) ->
+  forall (l : list op) w,
+  Inv.run_ops SpecReal.RT HashRealElement.tab_element HashRealEnum.tab_enum check_fn LATEST root_attrs l empty_world = Val w ->
+  (forall i, (exists n, w_nodes w i = Some n) ->
+     exists w', e_sort_with SpecReal.RT HashRealElement.tab_element HashRealAttr.tab_attr HashRealEnum.tab_enum
+                  name_index name_definition_ref srt i w = Val (OK tt, w') /\
+                SpecKids SpecReal.RT HashRealElement.tab_element HashRealAttr.tab_attr HashRealEnum.tab_enum w') /\
+  (forall m x, nth_opt (w_models w) (N.to_nat m) = Some x ->
+     exists w', m_sort_with SpecReal.RT HashRealElement.tab_element HashRealAttr.tab_attr HashRealEnum.tab_enum
+                  name_index name_definition_ref srt m w = Val (OK tt, w') /\
+                SpecKids SpecReal.RT HashRealElement.tab_element HashRealAttr.tab_attr HashRealEnum.tab_enum w').
+Proof. exact SortProofsReal.never_fails_histories_real. Qed.
+
+Theorem C14_never_fails_histories_real_isort : forall check_fn LATEST name_index name_definition_ref (l : list op) w,
+  Inv.run_ops SpecReal.RT HashRealElement.tab_element HashRealEnum.tab_enum check_fn LATEST [] l empty_world = Val w ->
+  forall i, (exists n, w_nodes w i = Some n) ->
+  exists w', e_sort SpecReal.RT HashRealElement.tab_element HashRealAttr.tab_attr HashRealEnum.tab_enum
+               name_index name_definition_ref i w = Val (OK tt, w').
+Proof. exact SortProofsReal.never_fails_histories_real_isort. Qed.
+
+Theorem C14_never_fails_real_nonvacuous : exists w w',
+  Inv.run_ops SpecReal.RT HashRealElement.tab_element HashRealEnum.tab_enum SortProofsReal.nv_check 1048576 []
+    SortProofsReal.nv_hist empty_world = Val w /\
+  option_map n_content (w_nodes w 1) = Some [CElem 2; CElem 4] /\
+  e_sort SpecReal.RT HashRealElement.tab_element HashRealAttr.tab_attr HashRealEnum.tab_enum 3516 6311 0 w = Val (OK tt, w') /\
+  option_map n_content (w_nodes w' 1) = Some [CElem 4; CElem 2].
+Proof. exact SortProofsReal.never_fails_real_nonvacuous. Qed.
